@@ -532,4 +532,15 @@ for the registers of the table themselves). -/
 theorem reg_class : ∀ p ∈ List.zip Gen.regs Oracle.regHW, physical p.1 →
     ClassOK p.2 (classBits true p.1.kind p.1.idx p.1.mask p.1.size) := by decide +kernel
 
+/-- **F20a (finding: specific-register predicates after a conversion).**  The
+implementation reports for `RAX.As8L()` (the register named AL, id 256, mask 1)
+the classification `IsR8` but not `IsAL` (`op == reg.AL` compares Go interface
+values, and a converted register is wrapped once more); judged by the hardware
+the name AL in a byte context IS register 0's low byte, so `ClassOK` fails on
+exactly that report. -/
+theorem class_conv_AL_fails :
+    ¬ ClassOK (groupOf Oracle.regHW ⟨"AL", 1, 0, 1, 1, 0, 256⟩)
+        [true, false, true, false, false, false, false, false, false, false,
+         false, false, false, false, false, false] := by decide +kernel
+
 end Avo.Reg
